@@ -113,6 +113,13 @@ def decode(val, decl, ns, log, guards_cb, name="v"):
     if kind == "set":
         items = val.get("__set__", []) if isinstance(val, dict) else []
         return {decode(v, decl[1], ns, log, guards_cb) for v in items}
+    if kind == "dictobj":
+        items = val.get("__dictobj__", []) if isinstance(val, dict) else []
+        out = {}
+        for k, v in items:
+            kk = decode(k, decl[1], ns, log, guards_cb)
+            out[_hashable(kk)] = decode(v, decl[2], ns, log, guards_cb)
+        return out
     if kind == "dict":
         items = val.get("__dict__", []) if isinstance(val, dict) else []
         return {_hashable(decode(k, decl[1], ns, log, guards_cb)): decode(v, decl[2], ns, log, guards_cb) for k, v in items}
